@@ -36,6 +36,8 @@ type Worker struct {
 	hooks    CLIHooks
 	job      *simapi.Job
 	corpus   *Corpus
+	index    *CorpusIndex
+	need     []string
 	ref      *Corpus // independent second load, used only by the reference model
 	refTable *RefTable
 	infos    []*linter.CheckerInfo
@@ -176,29 +178,13 @@ func startWatchdog() {
 func (w *Worker) run() error {
 	job := w.job
 	t0 := time.Now()
-	need := w.corpusNeeds()
 	var err error
-	refc := make(chan error, 1)
-	go func() {
-		var e error
-		w.ref, e = LoadCorpus(job.RepoDir, need, extraCorpus())
-		refc <- e
-	}()
-	w.corpus, err = LoadCorpus(job.RepoDir, need, extraCorpus())
+	w.index, err = BuildIndex(job.RepoDir, extraCorpus())
 	if err != nil {
 		return err
 	}
-	if err := <-refc; err != nil {
-		return err
-	}
-	w.refTable = newRefTable()
-	if job.RefPath != "" {
-		if err := w.refTable.load(job.RefPath); err != nil {
-			return err
-		}
-	}
-	loadMs := time.Since(t0).Milliseconds()
-
+	// generate this worker's runs first: only the packages they visit are loaded
+	var todo []*simapi.RunConfig
 	switch job.Mode {
 	case "runs":
 		stride := job.Stride
@@ -217,15 +203,79 @@ func (w *Worker) run() error {
 			if err != nil {
 				return err
 			}
-			w.execOne(rc)
+			todo = append(todo, rc)
 		}
 	case "replay":
 		for i := range job.Configs {
-			rc := job.Configs[i]
-			w.execOne(&rc)
+			todo = append(todo, &job.Configs[i])
+		}
+	case "ref":
+		idxs := job.Indices
+		if len(idxs) == 0 {
+			stride := job.Stride
+			if stride <= 0 {
+				stride = 1
+			}
+			for i := job.From; i < job.To; i += stride {
+				idxs = append(idxs, i)
+			}
+		}
+		for _, i := range idxs {
+			rc, err := w.generate(job.Prop, job.Tier, job.Seed, i)
+			if err != nil {
+				return err
+			}
+			todo = append(todo, rc)
 		}
 	default:
 		return fmt.Errorf("unknown job mode %q", job.Mode)
+	}
+	need := corpusNeeds(todo)
+	w.need = need
+	w.refTable = newRefTable()
+	if job.RefPath != "" && job.Mode != "ref" {
+		if err := w.refTable.load(job.RefPath); err != nil {
+			return err
+		}
+		if w.refTable.Steps == nil {
+			w.refTable.Steps = map[string]int64{}
+		}
+	}
+	refc := make(chan error, 1)
+	go func() {
+		var e error
+		if job.RefPath == "" || job.Mode == "ref" {
+			// without a precomputed table the reference corpus is needed right away
+			w.ref, e = LoadCorpus(job.RepoDir, need, extraCorpus())
+		}
+		refc <- e
+	}()
+	w.corpus, err = LoadCorpus(job.RepoDir, need, extraCorpus())
+	if err != nil {
+		return err
+	}
+	if err := <-refc; err != nil {
+		return err
+	}
+	loadMs := time.Since(t0).Milliseconds()
+
+	if err := w.index.Verify(w.corpus); err != nil {
+		return err
+	}
+	if job.Mode == "ref" {
+		// reference phase (plain build): the reference diagnostics and the
+		// serial step counts the race build will need
+		for _, rc := range todo {
+			w.precompute(rc)
+		}
+		if err := w.refTable.save(job.RefPath); err != nil {
+			return err
+		}
+		w.emit(&simapi.RunResult{Done: true, Proc: map[string]any{"ref_entries_computed": w.refTable.computed}})
+		return nil
+	}
+	for _, rc := range todo {
+		w.execOne(rc)
 	}
 	ds, tot := simrt.SiteHits()
 	seen, multi, unctl := simrt.MapSiteTable()
@@ -245,16 +295,13 @@ func keysOf(m map[int]uint32) []int {
 	return out
 }
 
-func (w *Worker) corpusNeeds() []string {
-	if w.job.Mode != "replay" {
-		return nil
-	}
+func corpusNeeds(todo []*simapi.RunConfig) []string {
 	set := map[string]bool{}
-	for _, c := range w.job.Configs {
+	for _, c := range todo {
 		for _, v := range c.Visits {
 			set[v.Pkg] = true
 		}
-		for _, n := range extraNeeds(&c) {
+		for _, n := range extraNeeds(c) {
 			set[n] = true
 		}
 	}
@@ -263,7 +310,7 @@ func (w *Worker) corpusNeeds() []string {
 		out = append(out, n)
 	}
 	if len(out) == 0 {
-		return nil
+		return []string{"sanity"} // keep the loader non-empty
 	}
 	sort.Strings(out)
 	return out
@@ -295,6 +342,24 @@ func (w *Worker) execOne(rc *simapi.RunConfig) {
 	}
 	w.curRun = nil
 	w.emit(r)
+}
+
+// precompute fills the reference table for one run.
+func (w *Worker) precompute(rc *simapi.RunConfig) {
+	if len(rc.Visits) == 0 || len(rc.Args) == 0 {
+		return
+	}
+	wl := w.parseWorkload(rc.Args)
+	w.refForVisits(wl, rc.Visits)
+	needCal := false
+	for _, v := range rc.Variants {
+		if len(v.CPFrac) > 0 {
+			needCal = true
+		}
+	}
+	if needCal {
+		w.refTable.Steps[fmt.Sprint(rc.Index)] = w.estimateSteps(wl, rc.Visits)
+	}
 }
 
 func (w *Worker) generate(prop, tier string, seed uint64, i int) (*simapi.RunConfig, error) {
